@@ -32,6 +32,7 @@ GNext ==
   \/ Recv /\ UNCHANGED hist
   \/ FaultHandler /\ Mark("handler", "")
   \/ FaultStop /\ Mark("stop", "")
+  \/ FaultConnect /\ hist' = Append(hist, [NewAtt EXCEPT !.fault = "connect", !.acc = Len(accAll)])
   \/ \E m \in {"err", "mismatch"} : FaultMapper(m) /\ Mark("mapper-" \o m, Head(rest).tbl.name)
   \/ \E k \in {"invalid", "rand"} : FaultInject(k) /\ Mark("inject-" \o k, "")
   \/ EndAttempt /\ SetLast([hist[Len(hist)] EXCEPT !.acc = Len(accAll),
